@@ -242,6 +242,13 @@ func (s *st) attempt(i int, symbolicVerifier bool) bool {
 		"code":         {s.code},
 		"redirect_uri": {"https://" + s.client + ".example/cb"},
 	}
+	if symbolicVerifier && i == 0 {
+		// non-canonical spellings of the grant type (first attempt of the smaller harness): whichever
+		// handler feels responsible, a challenge-bound code is never redeemed without its verifier
+		gt := []string{"authorization_code", "Authorization_Code", "AUTHORIZATION_CODE", "authorization_code x", "refresh_token authorization_code"}[zz.Choice("grant_type", 5)]
+		form.Set("grant_type", gt)
+		zz.Cover("attempt:non-canonical-grant-type", gt != "authorization_code")
+	}
 	var v string
 	absent, symV := false, false
 	nKinds := 8
